@@ -303,3 +303,32 @@ def t_conditional_expr_chain(u):
     d = c if c is not None else 7
     e = not (x == 3 and x != 4) or x in (1, 2, 3)
     return (a + b + d + (1 if e else 0)) * u
+
+
+def t_lazy_interleave(u):
+    def gen(xs):
+        for x in xs:
+            if x < 3:
+                yield x + 1
+
+    lst = [1]
+    lst.extend(gen(lst))  # the generator re-reads the list it feeds: [1, 2, 3]
+    lst2 = [1]
+    lst2.extend(x + 1 for x in lst2 if x < 3)
+    lst3 = [1]
+    lst3.extend(filter(lambda v: v < 4, (x + 1 for x in lst3)))
+    f = filter(None, [0, 1, 2])
+    a = list(f)
+    b = list(f)  # a filter object is exhausted after one pass
+
+    def countdown(n):
+        while n > 0:
+            yield n
+            n -= 1
+        return
+
+    def chain2():
+        yield from countdown(2)
+        yield from [10]
+
+    return (sum(lst) + sum(lst2) + sum(lst3) + len(a) * 10 + len(b) + sum(chain2())) * u
